@@ -185,7 +185,10 @@ pub fn for_each_input(fam: &Family<'_>, tier: Tier, f: &mut dyn FnMut(u64, &'sta
         }
         match fam.kind {
             Kind::Json => json_level(&mut g, seed, tier),
-            Kind::Text | Kind::Bytes => length_ladder(&mut g, seed),
+            Kind::Text | Kind::Bytes => {
+                length_ladder(&mut g, seed);
+                repeat_ladder(&mut g, seed);
+            }
             Kind::Html => {
                 length_ladder(&mut g, seed);
             }
@@ -299,6 +302,39 @@ fn length_ladder(g: &mut Gen<'_>, seed: &[u8]) {
             v.resize(p + (total - seed.len()), b'a');
             v.extend_from_slice(&seed[p..]);
             g.emit("length-ladder", &v);
+        }
+    }
+}
+
+/// Repeat the last 1, 2 or 5 bytes before every separator (and before the end) until the whole
+/// input has 8 KiB / 64 KiB: long runs of one token, of one wildcard, of one rejected word — the
+/// inputs that expose per-occurrence recursion and size limits of compiled patterns.
+fn repeat_ladder(g: &mut Gen<'_>, seed: &[u8]) {
+    let mut bounds = vec![];
+    for p in 1..=seed.len() {
+        if p == seed.len() || seed[p - 1].is_ascii_punctuation() || seed[p - 1].is_ascii_whitespace() {
+            bounds.push(p);
+        }
+    }
+    let mut v = Vec::new();
+    for &p in &bounds {
+        for k in [1usize, 2, 5] {
+            if p < k || std::str::from_utf8(&seed[p - k..p]).is_err() {
+                continue;
+            }
+            let chunk = &seed[p - k..p];
+            for total in [8 * 1024usize, 64 * 1024] {
+                if g.stopped {
+                    return;
+                }
+                v.clear();
+                v.extend_from_slice(&seed[..p]);
+                while v.len() + chunk.len() + (seed.len() - p) <= total {
+                    v.extend_from_slice(chunk);
+                }
+                v.extend_from_slice(&seed[p..]);
+                g.emit("repeat-ladder", &v);
+            }
         }
     }
 }
